@@ -15,8 +15,7 @@ BOUNDS = {
     'thorough': dict(L1='(2,0),(3,0),(3,1),(4,1),(5,1),(5,2),(6,2),(7,3) x PRSS on/off, l=8',
                      L2='l in {3,4,5,6}; mod b for b in 2..5 and 8'),
 }
-OUTSIDE = ['l > 6 for the comparison-type protocols (2^(l+1) paths per masked opening)', 'secure gcd/lcm/gcdext/inverse beyond l=3 and '
-           'beyond the one-divstep inductive lemma', 'compositions deeper than the corpus programs for m >= 4 (each operation is exact on '
+OUTSIDE = ['l > 6 for the comparison-type protocols (2^(l+1) paths per masked opening)', 'secure gcd/lcm/gcdext beyond l=4 (5 in the thorough tier) and inverse beyond l=6 (7); there the operands are forked by value and comparisons / parity / public division enter through their contracts', 'compositions deeper than the corpus programs for m >= 4 (each operation is exact on '
            'arbitrary in-range inputs; compositions follow by induction while intermediate values stay in range)',
            'label collisions of the 64-bit hash', 'mod b for b > 5 (solver unknown)']
 ASSUMPTIONS = ['multiplicative masks in is_zero_public are non-zero (documented "nonzero with high probability"; restart loops cut after '
@@ -150,6 +149,56 @@ def h_sgn(env):
         env.eq('lsb', k.sval(mpc.lsb(x)), a % 2)
 
 
+def h_gcd(env):
+    """secure gcd / lcm / gcdext / inverse (Bernstein-Yang divsteps) on value-forked operands: comparisons, parity and division by public
+    constants through their contracts (checked on the real protocols by the cmp / sgn / lsb / mod harnesses) and reciprocals as field inverses
+    (masked reciprocal: C04); the divstep loop, the swaps and the final normalisations are the real code; replays run everything real."""
+    import math
+    P = env.params
+    l, what = P['l'], P['what']
+    k = _l2(env, ideal_zero_test=True, ideal_cmp=True, ideal_mod=True, public_reciprocal=True)
+    mpc = k.mpc
+    R = type(mpc)
+    env.encoded(R._gcd, R._divsteps, R.inverse, R.gcdext, R.gcd, R.lcm, R.gcp2)
+    secint = mpc.SecInt(l)
+    if env.mode == 'sym':
+        k.cap_calls(mpc, '_random', 4, 'retries of reciprocal mask loops')           # replays run the real protocols, which draw many masks
+        # greatest common power of two by its contract (C30 checks the real trailing_zeros / find composition; not both operands zero)
+        def gcp2(x_, y_, l=None):
+            xa, ya = int(k.sval(x_)), int(k.sval(y_))
+            if xa == 0 and ya == 0:
+                env.cut('gcp2(0, 0): outside the contract established by C30 (documented TODO in the code)')
+            g_ = 1
+            while xa % (2 * g_) == 0 and ya % (2 * g_) == 0:
+                g_ *= 2
+            return secint(secint.field(g_))
+        mpc.gcp2 = gcp2
+        env.stubs.add('Runtime.gcp2 -> greatest common power of two (contract established by C30; symbolic run only, operands are forked by value)')
+    h = 1 << (l - 1)
+    lo = 0 if what == 'inverse' else -h + 1
+    a = env.fresh('a', lo, h)
+    b = env.fresh('b', 1 if what == 'inverse' else lo, h)
+    av = a.__index__() if env.mode == 'sym' else a
+    bv = b.__index__() if env.mode == 'sym' else b
+    if what == 'inverse' and math.gcd(av, bv) != 1:
+        env.cut('inverse: operands not coprime (precondition)')
+    if what in ('lcm',) and abs(math.lcm(av, bv)) >= h:
+        env.cut('lcm does not fit the type (precondition)')
+    x, y = secint(secint.field(av)), secint(secint.field(bv))
+    if what == 'inverse':
+        r = k.sval(mpc.inverse(x, y))
+        env.eq('inverse', r, pow(av, -1, bv))
+    elif what == 'gcd':
+        env.eq('gcd', k.sval(mpc.gcd(x, y)), math.gcd(av, bv))
+    elif what == 'lcm':
+        env.eq('lcm', k.sval(mpc.lcm(x, y)), math.lcm(av, bv))
+    else:
+        g, s_, t_ = mpc.gcdext(x, y)
+        g, s_, t_ = k.sval(g), k.sval(s_), k.sval(t_)
+        env.eq('gcdext:g', g, math.gcd(av, bv))
+        env.check('gcdext:bezout', s_ * av + t_ * bv == g)
+
+
 def h_minmax(env):
     P = env.params
     l = P['l']
@@ -230,6 +279,8 @@ def instances(tier):
             out.append(Inst(f'L2:{what}[l={l}]', h_sgn, dict(l=l, what=what), timeout=3000, max_paths=20000))
         for what in ('max', 'min'):
             out.append(Inst(f'L2:{what}[l={l}]', h_minmax, dict(l=l, what=what), timeout=3000, max_paths=20000))
+    for what, l in ((('inverse', 6), ('gcd', 4), ('gcdext', 4), ('lcm', 4)) if tier == 'quick' else (('inverse', 7), ('gcd', 5), ('gcdext', 5), ('lcm', 5))):
+        out.append(Inst(f'L2:{what}[l={l},operands value-forked]', h_gcd, dict(l=l, what=what), timeout=3000, max_paths=50000, n_validate=1))
     for l in ([4] if tier == 'quick' else [4, 5]):
         for b in ((2, 3, 4, 5) if tier == 'quick' else (2, 3, 4, 5, 8)):
             out.append(Inst(f'L2:mod[l={l},b={b}]', h_mod, dict(l=l, b=b, what='mod'), timeout=3000, max_paths=20000))
